@@ -7,13 +7,19 @@
 
     * field elements are their representatives (`Nat`, arithmetic `… % P` on GMP-accelerated `Nat`
       primitives), forced to a literal after every operation (`force`),
-    * the store and the input vectors are binary tries keyed by the bits of the index,
-    * the run is a structurally recursive loop `nzGo` that threads the trie and a counter.
+    * the store and the input vectors are binary tries keyed by the bits of the index; the trie is
+      updated in continuation-passing style (`setK`) so that, under the kernel's call-by-name
+      reduction, every trie that is passed on is a fully evaluated constructor tree (a lazily
+      updated trie degenerates into chains of suspended projections),
+    * field inverses may be supplied as HINTS (a list consumed in evaluation order): a hint `h` for
+      the divisor `y` is used only after checking `y * h % P = 1 ∧ h < P`; without hints the inverse
+      is computed (`invN`, Fermat),
+    * the run is a structurally recursive loop `nzGo` that threads the trie, the hints and a counter.
 
-  `nzCount inp p = some k` iff the coefficient-free shadow run of `p` on `inp` (the one that defines
-  `executedTerms` in `Proofs/AstChain.lean`) finishes without panic, every executed accumulate
-  statement has a NON-ZERO term, and `k` accumulate statements were executed.  The equivalence with
-  `executedTerms` is proved in `Proofs/AstFast.lean`; nothing here is trusted.
+  `nzCount inp hints p = some k` implies that the coefficient-free shadow run of `p` on `inp` (the one
+  that defines `executedTerms` in `Proofs/AstChain.lean`) executes exactly `k` accumulate statements
+  and every one of them has a NON-ZERO term.  This is proved in `Proofs/AstFast.lean` for all
+  programs, inputs and hint lists; nothing here is trusted.
 -/
 import Swiftness.Model.Ast
 
@@ -21,7 +27,7 @@ namespace Swiftness.Ast.Fast
 
 /-- evaluate `n` to a literal before continuing (the kernel substitutes arguments unevaluated;
     matching on `n` forces it).  `force n k = k n`. -/
-def force {α : Type} (n : Nat) (k : Nat → α) : α :=
+def force {α : Sort u} (n : Nat) (k : Nat → α) : α :=
   match n with
   | 0 => k 0
   | Nat.succ m => k (Nat.succ m)
@@ -35,34 +41,42 @@ inductive Trie where
 
 namespace Trie
 
-def val : Trie → Nat
-  | leaf => 0
-  | node v _ _ => v
-
-def left : Trie → Trie
-  | leaf => leaf
-  | node _ l _ => l
-
-def right : Trie → Trie
-  | leaf => leaf
-  | node _ _ r => r
-
 def get : Trie → Nat → Nat
   | leaf, _ => 0
   | node v l r, k =>
     cond (Nat.beq k 0) v
       (cond (Nat.beq (k % 2) 1) (l.get (k / 2)) (r.get (k / 2 - 1)))
 
-/-- `fuel > k` suffices (the key at least halves at each level) -/
+/-- specification of the update; `fuel > k` suffices (the key at least halves at each level) -/
 def setAux : Nat → Trie → Nat → Nat → Trie
   | 0, t, _, _ => t
-  | fuel + 1, t, k, x =>
-    cond (Nat.beq k 0) (node x t.left t.right)
+  | fuel + 1, leaf, k, x =>
+    cond (Nat.beq k 0) (node x leaf leaf)
       (cond (Nat.beq (k % 2) 1)
-        (node t.val (setAux fuel t.left (k / 2) x) t.right)
-        (node t.val t.left (setAux fuel t.right (k / 2 - 1) x)))
+        (node 0 (setAux fuel leaf (k / 2) x) leaf)
+        (node 0 leaf (setAux fuel leaf (k / 2 - 1) x)))
+  | fuel + 1, node v l r, k, x =>
+    cond (Nat.beq k 0) (node x l r)
+      (cond (Nat.beq (k % 2) 1)
+        (node v (setAux fuel l (k / 2) x) r)
+        (node v l (setAux fuel r (k / 2 - 1) x)))
 
 def set (t : Trie) (k x : Nat) : Trie := setAux (k + 1) t k x
+
+/-- the update in continuation-passing style: `setK fuel t k x c = c (setAux fuel t k x)`, and the
+    continuation receives a constructor term whose subtrees are those of `t` or freshly built -/
+def setK {α : Sort u} : Nat → Trie → Nat → Nat → (Trie → α) → α
+  | 0, t, _, _, c => c t
+  | fuel + 1, leaf, k, x, c =>
+    cond (Nat.beq k 0) (c (node x leaf leaf))
+      (cond (Nat.beq (k % 2) 1)
+        (setK fuel leaf (k / 2) x fun l => c (node 0 l leaf))
+        (setK fuel leaf (k / 2 - 1) x fun r => c (node 0 leaf r)))
+  | fuel + 1, node v l r, k, x, c =>
+    cond (Nat.beq k 0) (c (node x l r))
+      (cond (Nat.beq (k % 2) 1)
+        (setK fuel l (k / 2) x fun l' => c (node v l' r))
+        (setK fuel r (k / 2 - 1) x fun r' => c (node v l r')))
 
 /-- `xs[0], xs[1], …` stored at keys `i, i+1, …` -/
 def ofListAux : List Nat → Nat → Trie → Trie
@@ -70,6 +84,11 @@ def ofListAux : List Nat → Nat → Trie → Trie
   | x :: xs, i, t => ofListAux xs (i + 1) (t.set i x)
 
 def ofList (xs : List Nat) : Trie := ofListAux xs 0 leaf
+
+def ofListK {α : Sort u} : List Nat → Nat → Trie → (Trie → α) → α
+  | [], _, t, c => c t
+  | x :: xs, i, t, c =>
+    force x fun x' => force (i + 1) fun i' => setK i' t i x' fun t' => ofListK xs i' t' c
 
 end Trie
 
@@ -111,6 +130,24 @@ structure FInputs where
 
 def feltVals (a : Array Felt) : List Nat := a.toList.map (·.val)
 
+/-- `c` receives the inputs with every vector converted to a (fully evaluated) trie -/
+def withInputs {α : Sort u} (inp : Inputs) (c : FInputs → α) : α :=
+  Trie.ofListK (feltVals inp.mask) 0 .leaf fun mask =>
+  Trie.ofListK (feltVals inp.col) 0 .leaf fun col =>
+  Trie.ofListK (feltVals inp.oodsv) 0 .leaf fun oodsv =>
+  Trie.ofListK (feltVals inp.gv) 0 .leaf fun gv =>
+  Trie.ofListK inp.dp.toList 0 .leaf fun dp =>
+  force (feltVals inp.mask).length fun maskN =>
+  force (feltVals inp.col).length fun colN =>
+  force (feltVals inp.oodsv).length fun oodsvN =>
+  force (feltVals inp.gv).length fun gvN =>
+  force inp.dp.toList.length fun dpN =>
+  force inp.point.val fun point =>
+  force inp.tgen.val fun tgen =>
+  force inp.oodsPoint.val fun oodsPoint =>
+  c { mask, maskN, col, colN, oodsv, oodsvN, gv, gvN, dp, dpN, point, tgen, oodsPoint }
+
+/-- specification of `withInputs` -/
 def FInputs.ofInputs (inp : Inputs) : FInputs where
   mask := Trie.ofList (feltVals inp.mask)
   maskN := (feltVals inp.mask).length
@@ -126,56 +163,78 @@ def FInputs.ofInputs (inp : Inputs) : FInputs where
   tgen := inp.tgen.val
   oodsPoint := inp.oodsPoint.val
 
+/-- value and remaining hints -/
+abbrev Res := Option (Nat × List Nat)
+
+def ret (n : Nat) (hs : List Nat) : Res := force n fun v => some (v, hs)
+
 /-- `a[i]?` on a vector of length `n` stored in `t` -/
-def idxN (t : Trie) (n i : Nat) : Option Nat :=
-  cond (Nat.blt i n) (force (t.get i) some) none
+def idxN (t : Trie) (n i : Nat) (hs : List Nat) : Res :=
+  cond (Nat.blt i n) (ret (t.get i) hs) none
 
 def ixN (fi : FInputs) : Ix → Option Nat
   | .lit n => some n
-  | .dp i => idxN fi.dp fi.dpN i
+  | .dp i => cond (Nat.blt i fi.dpN) (force (fi.dp.get i) some) none
   | .add a b => match ixN fi a, ixN fi b with
     | some x, some y => force (x + y) some
     | _, _ => none
 
+/-- `x / y` in the field: with a hint `h` (checked: `y * h = 1`, `h < P`) or by Fermat -/
+def fdivN (x y : Nat) : List Nat → Res
+  | [] => cond (Nat.beq y 0) none (ret (mulP x (invN y)) [])
+  | h :: hs => cond (Nat.beq (mulP y h) 1 && Nat.blt h P) (ret (mulP x h) hs) none
+
 /-- `Expr.eval` on representatives, against the EMPTY coefficient vector (`.coeff _` panics);
-    `none` = panic -/
-def evalN (fi : FInputs) (t : Trie) : Expr → Option Nat
-  | .const n => force (n % P) some
-  | .var s => force (t.get s) some
-  | .gv i => idxN fi.gv fi.gvN i
-  | .dp i => match idxN fi.dp fi.dpN i with
-    | some v => force (v % P) some
+    `none` = panic (or a rejected hint) -/
+def evalN (fi : FInputs) (t : Trie) : Expr → List Nat → Res
+  | .const n, hs => ret (n % P) hs
+  | .var s, hs => ret (t.get s) hs
+  | .gv i, hs => idxN fi.gv fi.gvN i hs
+  | .dp i, hs => match idxN fi.dp fi.dpN i hs with
+    | some (v, hs) => ret (v % P) hs
     | none => none
-  | .mask i => idxN fi.mask fi.maskN i
-  | .oodsv i => idxN fi.oodsv fi.oodsvN i
-  | .coeff _ => none
-  | .col ix => match ixN fi ix with
-    | some i => idxN fi.col fi.colN i
+  | .mask i, hs => idxN fi.mask fi.maskN i hs
+  | .oodsv i, hs => idxN fi.oodsv fi.oodsvN i hs
+  | .coeff _, _ => none
+  | .col ix, hs => match ixN fi ix with
+    | some i => idxN fi.col fi.colN i hs
     | none => none
-  | .point => some fi.point
-  | .tgen => some fi.tgen
-  | .oodsPoint => some fi.oodsPoint
-  | .add a b => match evalN fi t a, evalN fi t b with
-    | some x, some y => force (addP x y) some
-    | _, _ => none
-  | .sub a b => match evalN fi t a, evalN fi t b with
-    | some x, some y => force (subP x y) some
-    | _, _ => none
-  | .mul a b => match evalN fi t a, evalN fi t b with
-    | some x, some y => force (mulP x y) some
-    | _, _ => none
-  | .neg a => match evalN fi t a with
-    | some x => force (negP x) some
+  | .point, hs => some (fi.point, hs)
+  | .tgen, hs => some (fi.tgen, hs)
+  | .oodsPoint, hs => some (fi.oodsPoint, hs)
+  | .add a b, hs => match evalN fi t a hs with
+    | some (x, hs) => match evalN fi t b hs with
+      | some (y, hs) => ret (addP x y) hs
+      | none => none
     | none => none
-  | .fdiv a b => match evalN fi t a, evalN fi t b with
-    | some x, some y => cond (Nat.beq y 0) none (force (mulP x (invN y)) some)
-    | _, _ => none
-  | .floorDiv a b => match evalN fi t a, evalN fi t b with
-    | some x, some y => force ((x / y) % P) some
-    | _, _ => none
-  | .powFelt a b => match evalN fi t a, evalN fi t b with
-    | some x, some y => force (powN 256 x y) some
-    | _, _ => none
+  | .sub a b, hs => match evalN fi t a hs with
+    | some (x, hs) => match evalN fi t b hs with
+      | some (y, hs) => ret (subP x y) hs
+      | none => none
+    | none => none
+  | .mul a b, hs => match evalN fi t a hs with
+    | some (x, hs) => match evalN fi t b hs with
+      | some (y, hs) => ret (mulP x y) hs
+      | none => none
+    | none => none
+  | .neg a, hs => match evalN fi t a hs with
+    | some (x, hs) => ret (negP x) hs
+    | none => none
+  | .fdiv a b, hs => match evalN fi t a hs with
+    | some (x, hs) => match evalN fi t b hs with
+      | some (y, hs) => fdivN x y hs
+      | none => none
+    | none => none
+  | .floorDiv a b, hs => match evalN fi t a hs with
+    | some (x, hs) => match evalN fi t b hs with
+      | some (y, hs) => ret ((x / y) % P) hs
+      | none => none
+    | none => none
+  | .powFelt a b, hs => match evalN fi t a hs with
+    | some (x, hs) => match evalN fi t b hs with
+      | some (y, hs) => ret (powN 256 x y) hs
+      | none => none
+    | none => none
 
 def guardsN (t : Trie) : List Nat → Bool
   | [] => true
@@ -183,24 +242,28 @@ def guardsN (t : Trie) : List Nat → Bool
 
 /-- the shadow run: returns the final store and the number of executed accumulate statements, or
     `none` if some evaluation panics or some executed accumulate statement has a zero term -/
-def nzGo (fi : FInputs) : Prog → Trie → Nat → Option (Trie × Nat)
-  | [], t, k => some (t, k)
-  | g :: rest, t, k =>
+def nzGo (fi : FInputs) : Prog → Trie → List Nat → Nat → Option (Trie × List Nat × Nat)
+  | [], t, hs, k => some (t, hs, k)
+  | g :: rest, t, hs, k =>
     cond (guardsN t g.guards)
       (match g.stmt with
-        | .set s e => match evalN fi t e with
-          | some v => nzGo fi rest (t.set s v) k
+        | .set s e => match evalN fi t e hs with
+          | some (v, hs) => Trie.setK (s + 1) t s v fun t' => nzGo fi rest t' hs k
           | none => none
-        | .acc dst _ _ e => match evalN fi t e with
-          | some v => cond (Nat.beq v 0) none (nzGo fi rest (t.set dst 0) (Nat.succ k))
+        | .acc dst _ _ e => match evalN fi t e hs with
+          | some (v, hs) =>
+            cond (Nat.beq v 0) none
+              (force (k + 1) fun k' => Trie.setK (dst + 1) t dst 0 fun t' => nzGo fi rest t' hs k')
           | none => none)
-      (nzGo fi rest t k)
+      (nzGo fi rest t hs k)
 
 /-- `some k`: the shadow run of `p` on `inp` finishes, executes `k` accumulate statements, and each
-    of their terms is non-zero -/
-def nzCount (inp : Inputs) (p : Prog) : Option Nat :=
-  match nzGo (FInputs.ofInputs inp) p Trie.leaf 0 with
-  | some r => some r.2
-  | none => none
+    of their terms is non-zero (`hints`: inverses of the `field_div` divisors in evaluation order;
+    may be empty) -/
+def nzCount (inp : Inputs) (hints : List Nat) (p : Prog) : Option Nat :=
+  withInputs inp fun fi =>
+    match nzGo fi p Trie.leaf hints 0 with
+    | some r => some r.2.2
+    | none => none
 
 end Swiftness.Ast.Fast
